@@ -7,6 +7,7 @@
 package middleware
 
 import (
+	"context"
 	"fmt"
 	"net/http"
 	"runtime/debug"
@@ -108,6 +109,11 @@ func (rec *statusRecorder) WriteHeader(code int) {
 func Timeout(d time.Duration) Middleware {
 	return func(h http.Handler) http.Handler {
 		return http.HandlerFunc(func(w http.ResponseWriter, r *http.Request) {
+			// TimeoutHandler answers 503 whenever the request's context is
+			// done. Only the timeout should do that: a client that shuts down
+			// its sending side after the request (which also cancels the
+			// context) is still owed the handler's own answer.
+			r = r.WithContext(context.WithoutCancel(r.Context()))
 			http.TimeoutHandler(h, d, "request timed out").ServeHTTP(w, r)
 		})
 	}
